@@ -572,7 +572,19 @@ func checkResponse(v *verdicts, status int, hdr http.Header, body []byte) {
 			v.add("c19:success-envelope-extra-keys", "%d keys: %q", len(obj), clip(body))
 		}
 	case kSystem, kComplex, kApp:
-		// the statement fixes the code; status and headers of coded errors are not asserted
+		// the statement fixes the code; the status of coded errors is not asserted.  A coded error is emitted as a JSON
+		// envelope like a success is, so "with a callback query parameter the same JSON is wrapped as callback(json) with the
+		// JavaScript content type" is read as covering it too: a JSONP client can read nothing else (DESIGN.md 7.7).
+		if c.callback != "" {
+			if !wrapped {
+				v.add("c19:jsonp-not-callback-json:"+kindNames[c.kind], "coded error for a request with callback=%s is not %s(<json>): %q", c.callback, c.callback, clip(body))
+				return
+			}
+			if mt := mediaType(hdr); mt != "application/javascript" {
+				v.add("c19:jsonp-content-type:"+kindNames[c.kind], "Content-Type %q", hdr.Get("Content-Type"))
+			}
+			v.m.Count("jsonp_wrapped_coded_error_ok", 1)
+		}
 		got, err := decodeNum(jsonText)
 		if err != nil {
 			v.add("c19:coded-error-body-not-json:"+kindNames[c.kind], "%v: %q", err, clip(body))
@@ -653,6 +665,7 @@ func TestVerif_C19_Envelope(t *testing.T) {
 	require("loopback_client_success", int64(n/20))
 	require("loopback_client_error_reported", int64(n/20))
 	require("jsonp_wrapped_ok", int64(n/20))
+	require("jsonp_wrapped_coded_error_ok", int64(n/40))
 	require("coded_error_code_ok", int64(n/10))
 	require("plain_error_status_ok", int64(n/20))
 	require("unmarshalable_answered_with_error_status", int64(n/50))
